@@ -418,27 +418,14 @@ fn cmd_replay_inner(args: &[String]) -> i32 {
     };
     let parsed = std::str::from_utf8(&raw).ok().and_then(|t| serde_json::from_str::<Value>(t).ok()).filter(|v| v.get("engine").is_some());
     let Some(v) = parsed else {
-        // not one of our JSON files: a raw libFuzzer input of the C07 target
-        if let Some(p) = ["C01", "C02", "C03", "C04", "C05"].iter().find(|p| **p == prop.as_str()) {
-            return match svcore::props::gc::fuzz_one(p, &raw) {
-                None => 0,
-                Some(f) => {
-                    println!("{}", json!({"kind": f.kind, "detail": f.detail}));
-                    1
-                }
-            };
-        }
-        if prop == "C07" {
-            return match svcore::props::asan::fuzz_one(&raw) {
-                None => 0,
-                Some(f) => {
-                    println!("{}", json!({"kind": f.kind, "detail": f.detail}));
-                    1
-                }
-            };
-        }
-        eprintln!("cannot parse {file}");
-        return 2;
+        // not one of our JSON files: a raw libFuzzer input of this property's fuzz target
+        return match registry::fuzz_bytes(prop, &raw) {
+            None => 0,
+            Some((f, _)) => {
+                println!("{}", json!({"kind": f.kind, "detail": f.detail}));
+                1
+            }
+        };
     };
     let engine = v["engine"].as_str().unwrap_or("");
     let res = match std::panic::catch_unwind(|| {
